@@ -246,6 +246,16 @@ func someXKey(r *rng, private bool) *bip32.ExtendedKey {
 	return n
 }
 
+// sizeOf: mostly a small size below n, one time in four a size around a power of two up to a few thousand (tables, pooled
+// buffers and chunked loops have their edges there)
+func sizeOf(r *rng, n int) int {
+	if r.coin(3, 4) {
+		return r.intn(n)
+	}
+	ladder := []int{63, 64, 65, 111, 127, 128, 129, 130, 200, 255, 256, 257, 511, 513, 1000, 1024, 1025, 4100}
+	return ladder[r.intn(len(ladder))]
+}
+
 var memAPI []memEntry
 
 func init() {
@@ -253,15 +263,15 @@ func init() {
 	S := bec.S256
 	// ---- base58
 	add("base58.Encode", func(c *memCtx) {
-		b := c.bytes("b", append(make([]byte, c.r.intn(3)), c.r.bytes(c.r.intn(40))...))
+		b := c.bytes("b", append(make([]byte, c.r.intn(3)), c.r.bytes(sizeOf(c.r, 40))...))
 		c.call(true, func() []interface{} { return []interface{}{base58.Encode(b)} })
 	})
 	add("base58.Decode", func(c *memCtx) {
-		s := string(randB58(c.r, c.r.intn(40)))
+		s := string(randB58(c.r, sizeOf(c.r, 40)))
 		c.call(true, func() []interface{} { return []interface{}{base58.Decode(s)} })
 	})
 	add("base58.CheckEncode", func(c *memCtx) {
-		b := c.bytes("input", c.r.bytes(c.r.intn(40)))
+		b := c.bytes("input", c.r.bytes(sizeOf(c.r, 40)))
 		c.call(true, func() []interface{} { return []interface{}{base58.CheckEncode(b, 7)} })
 	})
 	add("base58.CheckDecode", func(c *memCtx) {
@@ -333,12 +343,12 @@ func init() {
 	})
 	add("bec.Encrypt", func(c *memCtx) {
 		pub := c.pub(somePoint(c.r))
-		in := c.bytes("in", c.r.bytes(c.r.intn(40)))
+		in := c.bytes("in", c.r.bytes(sizeOf(c.r, 40)))
 		c.call(false, func() []interface{} { out, e := bec.Encrypt(pub, in); return []interface{}{out, e} })
 	})
 	add("bec.Decrypt", func(c *memCtx) {
 		d := someScalar(c.r)
-		ct, _ := bec.Encrypt(pubOf(mulG(d).x, mulG(d).y), c.r.bytes(c.r.intn(40)))
+		ct, _ := bec.Encrypt(pubOf(mulG(d).x, mulG(d).y), c.r.bytes(sizeOf(c.r, 40)))
 		if c.r.coin(1, 4) {
 			ct[len(ct)-1] ^= 1
 		}
@@ -656,19 +666,19 @@ func init() {
 	// ---- crypto
 	add("crypto.Encrypt", func(c *memCtx) {
 		blk, _ := aes.NewCipher(c.r.bytes(32))
-		txt := c.bytes("text", c.r.bytes(c.r.intn(40)))
+		txt := c.bytes("text", c.r.bytes(sizeOf(c.r, 40)))
 		c.call(false, func() []interface{} { out, e := crypto.Encrypt(blk, txt); return []interface{}{out, e} })
 	})
 	add("crypto.Decrypt", func(c *memCtx) {
 		blk, _ := aes.NewCipher(c.r.bytes(16))
-		ct0, _ := crypto.Encrypt(blk, c.r.bytes(c.r.intn(40)))
+		ct0, _ := crypto.Encrypt(blk, c.r.bytes(sizeOf(c.r, 40)))
 		ct := c.bytes("ciphertext", ct0)
 		c.call(true, func() []interface{} { out, e := crypto.Decrypt(blk, ct); return []interface{}{out, e} })
 	})
 	for _, m := range []string{"Sha256", "Sha256d", "Ripemd160", "Hash160"} {
 		m := m
 		add("crypto."+m, func(c *memCtx) {
-			b := c.bytes("b", c.r.bytes(c.r.intn(100)))
+			b := c.bytes("b", c.r.bytes(sizeOf(c.r, 100)))
 			c.call(true, func() []interface{} {
 				switch m {
 				case "Sha256":
